@@ -14,6 +14,7 @@ import Curtsies.Wire
 import Curtsies.Model.ParseArgs
 import Curtsies.Model.Repr
 import Curtsies.Model.StrMethods
+import Curtsies.Generated.EscParse
 namespace Curtsies.Driver
 open Curtsies Curtsies.Wire
 
@@ -100,25 +101,27 @@ def attsOps (args : List String) : Option String :=
   | ["splitspans", f, spans] => do
     pure ("ok " ++ encFmtList (splitSpans (← decFmt f) (← decSpans spans)))
   | ["splitsep", f, sep] => do
-    pure ("ok " ++ encFmtList (splitSep (← decFmt f) (← decText sep)))
+    pure (encExcept encFmtList (splitSep (← decFmt f) (← decText sep)))
   | ["splitlines", f, keep, breaks] => do
     let br ← decText breaks
     pure ("ok " ++ encFmtList (splitlines (fun c => br.contains c) (← decFmt f) (keep == "1")))
   | ["ljust", f, w, fill] => do
-    pure (encExcept encFmt (ljust (← decFmt f) (← w.toInt?) (← decFill fill)))
+    pure (encExcept encFmt (ljust Generated.intMaxStrDigits (← decFmt f) (← w.toInt?) (← decFill fill)))
   | ["rjust", f, w, fill] => do
-    pure (encExcept encFmt (rjust (← decFmt f) (← w.toInt?) (← decFill fill)))
+    pure (encExcept encFmt (rjust Generated.intMaxStrDigits (← decFmt f) (← w.toInt?) (← decFill fill)))
   | ["delegate", f, kind, payload] => do
     let f ← decFmt f
     let r : Except PyErr (StrResult Unit) ←
       if kind == "str" then (decText payload).map fun t => Except.ok (StrResult.str t)
       else if kind == "list" then (decTexts payload).map fun ts => Except.ok (StrResult.list ts)
+      else if kind == "bytes" then (decText payload).map fun t => Except.ok (StrResult.bytes (t.map Char.toNat))
       else if kind == "other" then some (Except.ok (StrResult.other ()))
       else if kind == "raise" then (decErr payload).map Except.error
       else none
-    pure (match delegate f (fun _ => r) with
+    pure (match delegate Generated.intMaxStrDigits f (fun _ => r) with
       | .ok (.fmt r) => "ok " ++ encFmt r
       | .ok (.fmtList rs) => "ok " ++ encFmtList rs
+      | .ok (.bytes bs) => "ok bytes " ++ ",".intercalate (bs.map toString)
       | .ok (.other _) => "ok other"
       | .error e => "E:" ++ e.name)
   | ["eq", f, kind, payload] => do
@@ -126,6 +129,7 @@ def attsOps (args : List String) : Option String :=
     let o : PyObj ←
       if kind == "fmt" then (decFmt payload).map PyObj.fmt
       else if kind == "str" then (decText payload).map PyObj.str
+      else if kind == "bytes" then (decText payload).map PyObj.bytes
       else if kind == "other" then some PyObj.other
       else none
     pure (match fmtEqObj f o with
@@ -136,7 +140,7 @@ def attsOps (args : List String) : Option String :=
       | some e => "ok " ++ encExpr e
       | none => "none")
   | ["evalrepr", f] => do
-    pure (match (reprAst (← decFmt f)).bind (evalExpr fun s => s) with
+    pure (match (reprAst (← decFmt f)).bind (evalExpr Generated.intMaxStrDigits fun s => s) with
       | some v => "ok " ++ encVal v
       | none => "none")
   | _ => none
